@@ -322,7 +322,7 @@ class Driver:
         nfd = op.get('nfd', nattach)
         fds, toks = self.new_files(nattach)
         data = build_message(ty, ser, f, sig, body, fl, le=op.get('le', True), raw_fields=raw,
-                             nfds=nfd if (nattach or 'nfd' in op) else None)
+                             nfds=nfd if (nattach or 'nfd' in op) else None, raw_first=bool(forge.get('first')))
         st = [x for x in self.slots.values() if x.c is c][0]
         st.joined.append((data, fds))
         if not op.get('join'):
